@@ -8,7 +8,7 @@ from .common_diff import run_cases, generic_replay
 PROOF_MODULE = "Nlmodel.Proofs.C09"
 PROOF_FILES = ["Nlmodel/Proofs/C09.lean", "Nlmodel/Model/Resolve.lean", "Nlmodel/Spec/Eval.lean", "Nlmodel/Model/Pipeline.lean"]
 THEOREM_FILE = PROOF_FILES[0]
-LEVEL_TEXT = ("Lean theorems about the resolver shared by the definitional semantics and the compiler model (one traversal mirroring symbols.rs + compiler.rs, annotating every occurrence with a unique binder and a slot): the innermost/latest declaration wins; an inner scope's names vanish when it is left and outer names are untouched; a function context sees its own names and the global context only; slots of simultaneously live names of one context are pairwise different and are exactly their positions; a program with an undeclared name evaluates to a reference error with EMPTY output on both the machine model and the definitional semantics; R1 (slots implement binders) by induction over the resolver for three syntactic source fragments (control flow; the whole function-free language; top-level functions with calls and locals). Tied to the code by comparing real eval with the binder-based definitional evaluator (which never looks at slots) on scoping-heavy programs, and by metamorphic checks on the implementation alone: consistent renaming, insertion of an unused shadowing declaration in any inner block, replacement of a name by an undeclared one at any position.")
+LEVEL_TEXT = ("Lean theorems about the resolver shared by the definitional semantics and the compiler model (one traversal mirroring symbols.rs + compiler.rs, annotating every occurrence with a unique binder and a slot): the innermost/latest declaration wins; an inner scope's names vanish when it is left and outer names are untouched; a function context sees its own names and the global context only; slots of simultaneously live names of one context are pairwise different and are exactly their positions; a program with an undeclared name evaluates to a reference error with EMPTY output on both the machine model and the definitional semantics; R1 (slots implement binders) by induction over the resolver for three syntactic source fragments (control flow; the whole function-free language; top-level functions with calls and locals). Tied to the code by comparing real eval with the binder-based definitional evaluator (which never looks at slots) on scoping-heavy programs, and by metamorphic checks on the implementation alone: consistent renaming, insertion of an unused shadowing declaration in any inner block, replacement of a name by an undeclared one at any position. SESSION 7: ALPHA-EQUIVALENCE (C09_alpha_equivalence, Lemmas/Alpha*): for every renaming of identifiers that is injective on the identifiers of the program, keeps builtin names builtin and the empty name empty, the renamed program compiles to the identical resolved tree and the identical bytecode (or fails with the identical error) - mutual induction over the whole resolver model; hence the same run for every budget and the same definitional answer for every fuel; a non-injective renaming changes the bytecode (kernel-checked counterexample).")
 LEVEL_NOTE = ("Trusted: Lean kernel; the resolver model is tied to symbols.rs/compiler.rs by the correspondence (bytecode equality is checked as a diagnostic in C10). The refinement 'slots implement binders' (R1) IS a theorem for three syntactic source fragments, by induction over the resolver: control flow over scalars (C09_slots_implement_binders_control_flow), the whole function-free language incl. heap values and builtins (C09_slots_implement_binders_function_free), and programs with top-level function definitions, calls, locals in nested block scopes of bodies (C09_slots_implement_binders_functions: a body's variable is a local of THAT body in its frame slot or an earlier global, never a caller's local; distinct function ids); composed with the simulation theorems of C01 the slot-based machine and the binder-based semantics agree there. Since stages 6 and 7 also with heap values inside bodies and function literals nested to any depth (C09_slots_implement_binders_nested_functions: a body reads and writes its own frame and persistent globals only; function ids pairwise distinct for EVERY accepted program). Outside (literals in top-level blocks, named literals in expression position) it is decided per program by the correspondence.")
 TECHNIQUE = "Lean 4 proof (symbol-table/resolver lemmas) + differential and metamorphic scoping checks"
 RULE = ("generated programs with nested blocks, shadowing at every depth <= 5, functions in blocks and in functions, recursion, one "
@@ -122,6 +122,7 @@ def rename(src, old, new):
 
 
 def run(res, tier, rng, table_diffs=()):
+    session_tier(res)
     cases = []
     n = 600 if tier == "quick" else 10000
     progs = [scoping_program(rng.fork()) for _ in range(n)]
@@ -192,10 +193,46 @@ def run(res, tier, rng, table_diffs=()):
                           dict(kind="metamorphic-" + label, input=[a, b], impl=[ra, rb]))
 
 
+def session_tier(res):
+    """names in RETAINED sessions (round 9): what a line rejected by the compiler declared, in whatever scope, does not exist
+    for later lines, and a global it shadowed keeps its value (gen2.failed_scope_leak_sessions); decided against the session
+    model and the direct expectation"""
+    from .. import gen2
+    leak = gen2.failed_scope_leak_sessions()
+    reqs = ["session 100000 " + " ".join(hx(l) for l in x[0]) for x in leak]
+    ia = core.impl(reqs)
+    ma = core.model(reqs)
+    bad = 0
+    for (s, exp), i, m in zip(leak, ia, ma):
+        res.seen("S" + "\n".join(s))
+        res.count("session-scope-leak")
+        io = i.split(" # ")[0]
+        got = [o.split(" | ")[0] for o in io.split(" ;; ")]
+        wrong = [k for k, (e, g) in enumerate(zip(exp, got)) if e is not None and e != g]
+        if (wrong or io != m) and bad < 3:
+            bad += 1
+            k = wrong[0] if wrong else 0
+            res.violation("a name declared only by a line the compiler rejected is visible on later lines of the session, or a global it shadowed lost its value"
+                          if wrong else "session model and the real Compiler+VM pair disagree on name resolution",
+                          dict(kind="session-scope-leak", input=s, line=s[k], expected=exp[k], impl=got[k] if k < len(got) else None, all=got, model=m),
+                          no_input=not wrong)
+
+
 _generic = generic_replay("C09")
 
 
 def replay(res, rp):
+    if rp.get("kind") == "session-scope-leak":
+        q = "session 100000 " + " ".join(hx(l) for l in rp["input"])
+        i = core.impl([q])[0].split(" # ")[0]
+        m = core.model([q])[0]
+        got = [o.split(" | ")[0] for o in i.split(" ;; ")]
+        k = rp["input"].index(rp["line"])
+        print(got, "| model:", m[:200])
+        if i != m or (rp.get("expected") and got[k] != rp["expected"]):
+            print("VIOLATION property=C09 replay=replay")
+            return 1
+        return 0
     if rp.get("kind") == "metamorphic-undeclared":
         r = core.impl(["eval 300000 " + hx(rp["input"][1])])[0]
         print(r)
